@@ -273,7 +273,8 @@ def cases_for(tier, rng):
             for fam in ("poly", "mixed"):
                 ijk = [rng.below(n), rng.below(n), rng.below(n)]
                 cases.append({"driver": "third_partial_derivative_vec", "fn": fam, "x": point(n), "ijk": ijk})
-    dims = [(1, 1), (2, 3), (5, 5), (3, 1), (1, 5), (6, 2), (2, 6), (7, 7)] if tier == "quick" else [(m, n) for m in range(1, 8) for n in range(1, 8)]
+    # every fixed-size instantiation of partial_hessian (1..5 x 1..5) and the dynamic branch beyond it
+    dims = [(m, n) for m in range(1, 7) for n in range(1, 7)] + [(7, 7)] if tier == "quick" else [(m, n) for m in range(1, 9) for n in range(1, 9)]
     for m, n in dims:
         for fam in BI_LIST:
             cases.append({"driver": "partial_hessian", "fn": fam, "x": point(m), "y": point(n), "container": "list"})
